@@ -71,13 +71,14 @@ def run(ctx):
             r = ctx.tlc("MC_NotifyXfrReq", "MC_NotifyXfrReq_" + d, workers=4, label="dev-" + d,
                         expect_violation=inv, count=False, coverage=False)
             ctx.require_ok(r, "deviation %s breaks %s on the model" % (d, inv))
-    cc = ctx.tlc("MC_NotifyXfrReqConc", "MC_NotifyXfrReqConc" + ("_thorough" if thorough else ""),
+    cc = ctx.tlc("MC_NotifyXfrReqConc", "MC_NotifyXfrReqConc" + ("_thorough" if thorough else "_quick"),
                  workers=8, label="mc-conc", timeout=3000)
     ctx.require_ok(cc, "MC_NotifyXfrReqConc (C1-C3 with liveness, ordered design)")
-    ctx.require_actions(cc, ["MCNext"])
+    ctx.require_actions(cc, ["Start", "BAcquire", "FAcquire", "GSend", "FDone", "BRecv", "BFail", "BDone", "GDrop"])
     if thorough:
-        r = ctx.tlc("MC_NotifyXfrReqConc", "MC_NotifyXfrReqConc_n1", workers=8, label="mc-conc-n1")
-        ctx.require_ok(r, "MC_NotifyXfrReqConc N = 1")
+        for c in ("", "_n1"):
+            r = ctx.tlc("MC_NotifyXfrReqConc", "MC_NotifyXfrReqConc" + c, workers=8, label="mc-conc" + c)
+            ctx.require_ok(r, "MC_NotifyXfrReqConc" + c)
     r = ctx.tlc("MC_NotifyXfrReqConc", "MC_NotifyXfrReqConc_gated", workers=2, label="mc-conc-gated",
                 coverage=False)
     ctx.require_ok(r, "MC_NotifyXfrReqConc gated (QuiescentLaw)")
@@ -224,7 +225,7 @@ def run(ctx):
     for i in range(n_tr):
         prefix = os.path.join(ctx.work, "tr%d" % i)
         rc, out, err, _ = ctx.run_bin("record_notifyxfr", [prefix, str(ctx.seed * 100 + i),
-                                                            "6000" if thorough else "2500"])
+                                                            "6000" if thorough else "1500"])
         m = re.search(r"RECORDED (\{.*\})", out)
         if rc != 0 or not m:
             raise vlib.ToolError("record_notifyxfr failed: " + (out + err)[-600:])
